@@ -120,3 +120,17 @@ CONFIG["C09"] = {
     "assumptions": COMMON_ASSUMPTIONS + ["jet roots are taken from the jet tables (C14 compares those with C); Policy::cmr / the CMR-only compiler is not public API and is covered in C16"],
     "counter_floors": {"quick": {"variant.hiding": 10000, "variant.redeem": 15000, "variant.pruned": 5000}, "thorough": {"variant.hiding": 500000}},
 }
+
+CONFIG["C01"] = {
+    "budget_s": {"quick": 120, "thorough": 1800},
+    "floor": {"quick": 20000, "thorough": 800000},
+    "rule": ("a case is a type-directed random 1->1 program (no jets / Core / Elements; pointer-shared and structurally duplicated sub-expressions incl. duplicated witness nodes with equal values; "
+             "assertions with random and real hidden roots, some shared; disconnect with branch; fail; words; witnesses of every type shape projected to the principal types and realised through mixed "
+             "value histories). Redemption time: finalize_unpruned -> to_vec_with_witness -> RedeemNode::decode; node lists under MaxSharing must agree position by position on CMR, source/target TMR, "
+             "IHR, AMR and witness value (semantic comparison), and re-encoding must reproduce both byte strings. Independently, the program bytes are parsed by the harness's bit-level parser: the list "
+             "must unfold to the generated expression (structure hash incl. disconnected branches), type-check in the reference inference, and the witness stream read with the reference types must "
+             "hold exactly the program's witness values in order with only zero padding after. Commitment time: finalize_types -> to_vec_without_witness -> CommitNode::decode with the same comparisons "
+             "(IHR/AMR where defined), witness/disconnect-containing sub-expressions occurring once. Non-trivial: >= 5 nodes; distinct: distinct program renderings."),
+    "assumptions": COMMON_ASSUMPTIONS + ["jet bit codes are taken from the jet tables (C14)", "Bitcoin jets excluded (roots unimplemented by design)"],
+    "counter_floors": {"quick": {"witness-values": 20000, "has-hidden": 500, "has-disconnect": 2000, "sharing-merged-nodes": 10000}, "thorough": {"witness-values": 500000}},
+}
